@@ -6,7 +6,9 @@
 
 package log
 
-//@ unit logger_handler props=C20,C12 filter=`log\.Logger\)\.ServeHTTP$`
+//@ unit logger_handler frames=on props=C20,C12 filter=`log\.Logger\)\.ServeHTTP$`
+//@ extern (github.com/tmpim/casket/caskethttp/httpserver.Logger).MaskIP
+//@   pure
 //@ ghost lines int
 //@ ghost nextCalls int
 //@ ghost errWrites int
@@ -43,7 +45,7 @@ package log
 //@   ensures_on_panic [line_on_panic] forall(k, 0, len(l.Rules), (hit(k) && forall(j, 0, k, !hit(j))) ==> lines == old(lines) + cnt(l.Rules[k], old(r.URL.Path), len(l.Rules[k].Entries)))
 //@   requires r != nil && r.URL != nil && l.Next != nil
 //@   requires forall(k, 0, len(l.Rules), l.Rules[k] != nil && forall(j, 0, len(l.Rules[k].Entries), l.Rules[k].Entries[j] != nil && l.Rules[k].Entries[j].Log != nil))
-//@   modifies ghost:lines, ghost:nextCalls, ghost:errWrites, Request.URL
+//@   modifies ghost:lines, ghost:nextCalls, ghost:errWrites, Request.URL, ResponseRecorder.Replacer, URL.Path, URL.RawPath, URL.RawQuery
 //@   ensures [next_once] nextCalls == old(nextCalls) + 1
 //@   ensures [in_scope_consumes_status] exists(k, 0, len(l.Rules), hit(k)) ==> result0 < 400
 //@   ensures [one_line_per_log] forall(k, 0, len(l.Rules), (hit(k) && forall(j, 0, k, !hit(j))) ==> lines == old(lines) + cnt(l.Rules[k], old(r.URL.Path), len(l.Rules[k].Entries)))
@@ -63,7 +65,7 @@ package log
 //@ use @verif/specs/stdlib.spec:stdlib
 //@ use @verif/specs/stdlib.spec:casket_api
 
-//@ unit log_setup props=C11,C20 nilchecks=on dispenser_variants=on filter=`log\.(setup|logParse|appendEntry)$`
+//@ unit log_setup frames=on props=C11,C20 nilchecks=on dispenser_variants=on filter=`log\.(setup|logParse|appendEntry)$`
 //@ // The setup of the `log` directive, and the representation invariant its handler relies on (unit logger_handler takes
 //@ // it as a precondition): every rule is non-nil, every entry of every rule is non-nil and has a logger. appendEntry
 //@ // keeps it, logParse establishes it for what it returns, setup attaches each entry's logger.
@@ -88,6 +90,7 @@ package log
 //@   ensures [nothing_lost] len(result) >= len(rules)
 //@   loop 1 invariant 0 <= #i && #i <= len(rules) && wfRules(rules)
 //@ func logParse
+//@   modifies Dispenser.cursor, Dispenser.nesting, E:*github.com/tmpim/casket/caskethttp/log.Entry, E:*github.com/tmpim/casket/caskethttp/log.Rule, Rule, Entry
 //@   requires c != nil
 //@   ensures [rules_well_formed] result1 == nil ==> wfRules(result0)
 //@   loop 1 invariant c != nil && wfRules(rules)
@@ -95,5 +98,6 @@ package log
 //@   loop 3 invariant c != nil && wfRules(rules) && logRoller != nil && 0 <= i && i <= len(where)
 //@ func setup
 //@   requires c != nil
+//@   modifies Dispenser.cursor, Dispenser.nesting, E:*github.com/tmpim/casket/caskethttp/log.Entry, E:*github.com/tmpim/casket/caskethttp/log.Rule, Rule, Entry
 //@   loop 1 invariant 0 <= #i && #i <= len(rules) && wfRules(rules)
 //@   loop 2 invariant wfRules(rules) && 1 <= #i1 && #i1 <= len(rules) && rule == rules[#i1 - 1] && 0 <= #i && #i <= len(rule.Entries)
